@@ -205,6 +205,9 @@ inline void fdOverX(Ctx &c, const std::string &mon, const OptCase &oc, const Opt
             fprintf(stderr, "  x[%d] %s analytic=%.12g fd=%.12g noise=%.3g\n", cp.idx, xGroup(*cp.e).c_str(), grad(cp.idx), fd, noise);
     }
     for (auto &kv : acc.m)
+        if (kv.second.maxmag[0] > 0)
+            c.event(kv.second.noiseMax[0] < 0.99e-4 * kv.second.maxmag[0] ? "sensitivity_probe_1e-4.would_detect" : "sensitivity_probe_1e-4.masked_by_noise_band");
+    for (auto &kv : acc.m)
         c.check(mon + "." + kv.first, kv.second.value(0), 1e-6, okey(oc, "gradient", kv.first));
 }
 
@@ -356,8 +359,8 @@ inline void runC08(Ctx &c)
                 }
                 seen[sm.seg][k]++;
                 LD tex = (LD)T * k / oc.K;
-                wLocal = std::max(wLocal, std::fabs((double)((LD)sm.t - tex)) / (4 * ulpOf(T)));
-                wGlobal = std::max(wGlobal, std::fabs((double)((LD)sm.tg - (segStart[sm.seg] + tex))) / ((sm.seg + 4) * ulpOf(tmax) + 4 * ulpOf(T)));
+                wLocal = std::max(wLocal, std::fabs((double)((LD)sm.t - tex)) / (8 * ulpOf(T)));
+                wGlobal = std::max(wGlobal, std::fabs((double)((LD)sm.tg - (segStart[sm.seg] + tex))) / ((sm.seg + 8) * ulpOf(tmax) + 8 * ulpOf(T)));
                 LD st[5][kMaxDim];
                 for (int d = 0; d < 5; ++d)
                     for (int j = 0; j < dec.dim; ++j)
@@ -418,10 +421,10 @@ inline void runC08(Ctx &c)
                 ref += (LD)oc.rho * E;
                 refAbs += (LD)oc.rho * Ea;
             }
-            c.check("C08.cost_is_sum_of_four_terms", refAbs > 0 ? (double)(fabsl((LD)cost - ref) / refAbs) : (cost == 0 ? 0 : INFINITY), 1e-11, okey(oc, "cost_decomposition"));
+            c.check("C08.cost_is_sum_of_four_terms", refAbs > 0 ? (double)(fabsl((LD)cost - ref) / refAbs) : (cost == 0 ? 0 : INFINITY), 1e-10, okey(oc, "cost_decomposition"));
             // fully independent recomputation (own sampling of an independently constructed trajectory)
             CostBreakdown cb = recomputeCost(oc, dec, three);
-            c.check("C08.cost_vs_independent_recomputation", cb.abssum > 0 ? (double)(fabsl((LD)cost - cb.total) / cb.abssum) : 0.0, 1e-9, okey(oc, "cost_recomputation"));
+            c.check("C08.cost_vs_independent_recomputation", cb.abssum > 0 ? (double)(fabsl((LD)cost - cb.total) / cb.abssum) : 0.0, 1e-8, okey(oc, "cost_recomputation"));
             // the workspace spline is the decoded trajectory
             {
                 std::unique_ptr<ISpline> wsS = eo.ws >= 0 ? rig.env->wsSpline(eo.ws) : rig.opt->optimalSpline();
